@@ -82,6 +82,7 @@ type Stats struct {
 	KnownWitness  map[string]string      `json:"known_witness"`
 	Samples       []interface{}          `json:"samples"`
 	Inconclusive  []string               `json:"inconclusive"`
+	InconCases    []string               `json:"inconclusive_cases,omitempty"` // saved cases, parallel to Inconclusive ("" = not saved)
 	Violation     *Violation             `json:"violation,omitempty"`
 	ViolationCase string                 `json:"violation_case,omitempty"`
 	HashFile      string                 `json:"hash_file,omitempty"`
@@ -258,6 +259,13 @@ func Main[C any](t *testing.T, p Prop[C]) {
 		if out.Inconclusive != "" {
 			if len(col.st.Inconclusive) < 20 {
 				col.st.Inconclusive = append(col.st.Inconclusive, out.Inconclusive)
+				// the driver runs the case again on its own (a watchdog that went off on a busy machine is not a verdict)
+				path := ""
+				if witnessDir != "" {
+					path = fmt.Sprintf("%s/incon-%s-%016x.json", witnessDir, os.Getenv("VERIF_SHARD"), HashCase(c))
+					writeCase(path, c, nil)
+				}
+				col.st.InconCases = append(col.st.InconCases, path)
 			}
 			return nil
 		}
